@@ -14,7 +14,7 @@ man = dict(version=1, setup_cmd="true",
   engines=[dict(name="ll2c+cbmc", path="/verif/lib", serves_properties=claimed,
                 kind_free_text="clang-14 IR of the real header -> own typed IR-to-C translator (lib/ll2c.py) -> CBMC 6.11 bounded model checker (SAT: cadical); counterexamples are replayed against the native g++/clang++ build of the same harness")],
   checks=[], not_applicable=[],
-  notes="DESIGN.md describes the approach; known_findings.txt lists the seven repaired defects (F1-F7). quick = every-change tier, thorough = deeper bounds.")
+  notes="DESIGN.md describes the approach; known_findings.txt lists the nine repaired defects (F1-F9). quick = every-change tier, thorough = deeper bounds.")
 for p in allp:
     pid = p['id']
     if pid in props.PROPS:
